@@ -103,6 +103,10 @@ impl BBSplusPoKSignature {
     ///
     /// * `Result<Self, Error>` - A result containing the deserialized `BBSplusPoKSignature` or an error.
     pub fn from_bytes(bytes: &[u8]) -> Result<Self, Error> {
+        // 3 points, 3 scalars, U >= 0 message responses and the challenge: 272 + 32 * U octets
+        if bytes.len() < 272 || (bytes.len() - 272) % 32 != 0 {
+            return Err(Error::InvalidProofOfKnowledgeSignature);
+        }
         let Abar = parse_g1_projective(&bytes[0..48])
             .map_err(|_| Error::InvalidProofOfKnowledgeSignature)?;
         let Bbar = parse_g1_projective(&bytes[48..96])
@@ -966,6 +970,10 @@ impl BBSplusZKPoK {
     /// # Output
     /// * A Result containing the `BBSplusZKPoK` or an Error.
     pub fn from_bytes(bytes: &[u8]) -> Result<Self, Error> {
+        // s_cap, M >= 0 message responses and the challenge: 64 + 32 * M octets
+        if bytes.len() < 64 || bytes.len() % 32 != 0 {
+            return Err(Error::InvalidProofOfKnowledgeSignature);
+        }
         let s_cap = Scalar::from_bytes_be(
             &<[u8; 32]>::try_from(&bytes[0..32])
                 .map_err(|_| Error::InvalidProofOfKnowledgeSignature)?,
